@@ -46,12 +46,12 @@ pub fn dump_main(args: &[String]) {
     q.push("goals".to_string());
     let mut o = observe(&db, &texts, &q);
     // the same library behind the LSP server, with the configuration `iwe init` writes (several configured block actions
-    // in a hash map): the completion list (many notes share a title) and the code-action list, in the order answered
+    // in a hash map, some sharing a title): the completion list (many notes share a title) and the code-action list, in the order answered
     {
         use crate::lsp::{self, Outcome, Server};
         use liwe::model::config::{BlockAction, Context};
         let mut cfg = lsp::test_configuration("");
-        for (id, title) in [("rewrite", "Rewrite"), ("expand", "Expand"), ("keywords", "Keywords"), ("emoji", "Emojify"), ("today", "Today"), ("summarize", "Summarize")] {
+        for (id, title) in [("rewrite", "Rewrite"), ("expand", "Expand"), ("keywords", "Keywords"), ("emoji", "Emojify"), ("today", "Today"), ("summarize", "Summarize"), ("rewrite_fast", "Rewrite"), ("rewrite_long", "Rewrite"), ("rewrite_short", "Rewrite")] {
             cfg.actions.insert(id.to_string(), BlockAction { title: title.to_string(), model: "default".to_string(), prompt_template: "{{context}}".to_string(), context: Context::Document });
         }
         let st: HashMap<String, String> = keys.iter().map(|k| ((*k).clone(), texts[*k].clone())).collect();
@@ -75,7 +75,7 @@ impl Check for C16 {
         "C16"
     }
     fn rule(&self) -> String {
-        "case = one generated library (50-400 notes, dense cross references, duplicate titles, equal ranks) dumped by N separate processes (fresh hash seeds) with RAYON_NUM_THREADS in {1,2,3,4,8,16}, the state map filled in permuted orders, built by Graph::import and by one-by-one inserts in permuted orders; the canonical dump (formatted files, titles, backlink sets with lines, rendered paths, ordered search results, node-at-line; plus, from an LSP server on the same library with six configured block actions, the completion list and the code-action list in the order answered) of all processes must be byte-identical; distinct = (build mode, thread count, permutation) configurations that produced a dump".into()
+        "case = one generated library (50-400 notes, dense cross references, duplicate titles, equal ranks) dumped by N separate processes (fresh hash seeds) with RAYON_NUM_THREADS in {1,2,3,4,8,16}, the state map filled in permuted orders, built by Graph::import and by one-by-one inserts in permuted orders; the canonical dump (formatted files, titles, backlink sets with lines, rendered paths, ordered search results, node-at-line; plus, from an LSP server on the same library with nine configured block actions (three of them sharing a title), the completion list and the code-action list in the order answered) of all processes must be byte-identical; distinct = (build mode, thread count, permutation) configurations that produced a dump".into()
     }
     fn assumptions(&self) -> Vec<String> {
         vec!["each dump comes from its own OS process, so HashMap RandomState differs between dumps".into()]
